@@ -34,6 +34,7 @@ type Phase struct {
 	Body    func(c *explore.C) // E1 harness body (nil when Custom is set)
 	Custom  func(p *PhaseCtx)  // E2/E3 engines report through PhaseCtx
 	NoShard bool               // run in a single worker
+	Env     []string           // extra environment of the phase's worker processes
 	Gate    bool               // the body calls c.Gate(): shard by hash of the leading choices
 	Race    bool               // run this phase in the race-detector build of the checker ($VERIF_RACE_BIN)
 	Rule    string             // how cases are enumerated, what makes an outcome distinct
@@ -472,10 +473,10 @@ func runCheck(ck *Check, tier universe.Tier, tierS string, nworkers int, budget 
 			}
 		}
 		remaining := time.Until(deadline)
-		// share the remaining budget evenly over the remaining phases
-		per := remaining / time.Duration(len(phases)-pi)
-		if per < 5*time.Second {
-			per = 5 * time.Second
+		// a phase may use what is left, minus a reserve for each later phase
+		per := remaining - time.Duration(len(phases)-pi-1)*8*time.Second
+		if per < 8*time.Second {
+			per = 8 * time.Second
 		}
 		total := &PhaseResult{Phase: ph.Name, Classes: map[string]int64{}}
 		var mu sync.Mutex
@@ -487,6 +488,7 @@ func runCheck(ck *Check, tier universe.Tier, tierS string, nworkers int, budget 
 				out := filepath.Join(tmp, fmt.Sprintf("%s-%d.json", ph.Name, s))
 				cmd := exec.Command(bin, ck.ID, "--tier", tierS, "--worker", fmt.Sprintf("%s:%d/%d", ph.Name, s, n), "--out", out, "--budget", per.String())
 				cmd.Env = append(os.Environ(), "GOMAXPROCS=1", "GORACE=halt_on_error=1 exitcode=66")
+				cmd.Env = append(cmd.Env, ph.Env...)
 				if ph.Race {
 					cmd.Env = append(cmd.Env, "VERIF_WORKER_AS=0") // the race runtime maps a huge shadow region
 				}
